@@ -12,185 +12,185 @@ def api : List ApiSig := [
   /- DEACTIVATION_LOCK_CLEAR -/ ⟨2, false, [], 0, false, false, [], []⟩,
   /- DEACTIVATION_LOCK_SET -/ ⟨3, false, [], 0, false, false, [], []⟩,
   /- abort_firmware_upgrade -/ ⟨4, true, [], 0, false, false, [], []⟩,
-  /- activate_firmware -/ ⟨5, true, [155], 0, false, false, [], []⟩,
-  /- activate_firmware_and_wait -/ ⟨6, true, [155, 156, 157], 0, false, false, [], []⟩,
-  /- activation_stage -/ ⟨7, true, [158, 159], 2, false, false, [], []⟩,
-  /- chassis_control -/ ⟨8, true, [160], 1, false, false, [], []⟩,
+  /- activate_firmware -/ ⟨5, true, [152], 0, false, false, [], []⟩,
+  /- activate_firmware_and_wait -/ ⟨6, true, [152, 153, 154], 0, false, false, [], []⟩,
+  /- activation_stage -/ ⟨7, true, [155, 156], 2, false, false, [], []⟩,
+  /- chassis_control -/ ⟨8, true, [157], 1, false, false, [], []⟩,
   /- chassis_control_diagnostic_interrupt -/ ⟨9, true, [], 0, false, false, [], []⟩,
   /- chassis_control_hard_reset -/ ⟨10, true, [], 0, false, false, [], []⟩,
   /- chassis_control_power_cycle -/ ⟨11, true, [], 0, false, false, [], []⟩,
   /- chassis_control_power_down -/ ⟨12, true, [], 0, false, false, [], []⟩,
   /- chassis_control_power_up -/ ⟨13, true, [], 0, false, false, [], []⟩,
   /- chassis_control_soft_shutdown -/ ⟨14, true, [], 0, false, false, [], []⟩,
-  /- clear_fru_activation_lock -/ ⟨15, true, [161], 1, false, false, [], []⟩,
-  /- clear_fru_deactivation_lock -/ ⟨16, true, [161], 1, false, false, [], []⟩,
-  /- clear_sdr_repository -/ ⟨17, true, [162], 0, false, false, [], []⟩,
-  /- clear_sel -/ ⟨18, true, [162], 0, false, false, [], []⟩,
+  /- clear_fru_activation_lock -/ ⟨15, true, [158], 1, false, false, [], []⟩,
+  /- clear_fru_deactivation_lock -/ ⟨16, true, [158], 1, false, false, [], []⟩,
+  /- clear_sdr_repository -/ ⟨17, true, [159], 0, false, false, [], []⟩,
+  /- clear_sel -/ ⟨18, true, [159], 0, false, false, [], []⟩,
   /- close -/ ⟨19, true, [], 0, false, false, [], []⟩,
   /- cold_reset -/ ⟨20, true, [], 0, false, false, [], []⟩,
-  /- delete_sdr -/ ⟨21, true, [163], 1, false, false, [], []⟩,
-  /- delete_sel_entry -/ ⟨22, true, [163, 164], 1, false, false, [], []⟩,
+  /- delete_sdr -/ ⟨21, true, [160], 1, false, false, [], []⟩,
+  /- delete_sel_entry -/ ⟨22, true, [160, 161], 1, false, false, [], []⟩,
   /- device_sdr_entries -/ ⟨23, true, [], 0, false, false, [], []⟩,
-  /- disable_user -/ ⟨24, true, [165], 1, false, false, [], []⟩,
-  /- enable_user -/ ⟨25, true, [165], 1, false, false, [], []⟩,
-  /- find_component_id_by_descriptor -/ ⟨26, true, [166], 1, false, false, [], []⟩,
-  /- finish_firmware_upload -/ ⟨27, true, [159, 167], 2, false, false, [], []⟩,
-  /- finish_upload_and_wait -/ ⟨28, true, [159, 167, 156, 157], 2, false, false, [], []⟩,
-  /- fru_control -/ ⟨29, true, [161, 160], 2, false, false, [], []⟩,
-  /- fru_control_cold_reset -/ ⟨30, true, [161], 0, false, false, [], []⟩,
-  /- fru_control_diagnostic_interrupt -/ ⟨31, true, [161], 0, false, false, [], []⟩,
-  /- fru_control_graceful_reboot -/ ⟨32, true, [161], 0, false, false, [], []⟩,
-  /- fru_control_warm_reset -/ ⟨33, true, [161], 0, false, false, [], []⟩,
-  /- get_and_clear_sel_entry -/ ⟨34, true, [163], 1, false, false, [], []⟩,
+  /- disable_user -/ ⟨24, true, [162], 1, false, false, [], []⟩,
+  /- enable_user -/ ⟨25, true, [162], 1, false, false, [], []⟩,
+  /- find_component_id_by_descriptor -/ ⟨26, true, [163], 1, false, false, [], []⟩,
+  /- finish_firmware_upload -/ ⟨27, true, [156, 164], 2, false, false, [], []⟩,
+  /- finish_upload_and_wait -/ ⟨28, true, [156, 164, 153, 154], 2, false, false, [], []⟩,
+  /- fru_control -/ ⟨29, true, [158, 157], 2, false, false, [], []⟩,
+  /- fru_control_cold_reset -/ ⟨30, true, [158], 0, false, false, [], []⟩,
+  /- fru_control_diagnostic_interrupt -/ ⟨31, true, [158], 0, false, false, [], []⟩,
+  /- fru_control_graceful_reboot -/ ⟨32, true, [158], 0, false, false, [], []⟩,
+  /- fru_control_warm_reset -/ ⟨33, true, [158], 0, false, false, [], []⟩,
+  /- get_and_clear_sel_entry -/ ⟨34, true, [160], 1, false, false, [], []⟩,
   /- get_boot_device -/ ⟨35, true, [], 0, false, false, [], []⟩,
   /- get_boot_mode -/ ⟨36, true, [], 0, false, false, [], []⟩,
   /- get_boot_persistency -/ ⟨37, true, [], 0, false, false, [], []⟩,
-  /- get_channel_authentication_capabilities -/ ⟨38, true, [168, 169], 2, false, false, [], []⟩,
+  /- get_channel_authentication_capabilities -/ ⟨38, true, [165, 166], 2, false, false, [], []⟩,
   /- get_chassis_status -/ ⟨39, true, [], 0, false, false, [], []⟩,
-  /- get_component_properties -/ ⟨40, true, [170], 1, false, false, [], []⟩,
-  /- get_component_property -/ ⟨41, true, [170, 171], 2, false, false, [], []⟩,
-  /- get_dcmi_capabilities -/ ⟨42, true, [172], 1, false, false, [], []⟩,
+  /- get_component_properties -/ ⟨40, true, [167], 1, false, false, [], []⟩,
+  /- get_component_property -/ ⟨41, true, [167, 168], 2, false, false, [], []⟩,
+  /- get_dcmi_capabilities -/ ⟨42, true, [169], 1, false, false, [], []⟩,
   /- get_dcmi_sensor_record_ids -/ ⟨43, true, [], 0, false, false, [], []⟩,
   /- get_device_guid -/ ⟨44, true, [], 0, false, false, [], []⟩,
   /- get_device_id -/ ⟨45, true, [], 0, false, false, [], []⟩,
-  /- get_device_sdr -/ ⟨46, true, [163, 173], 1, false, false, [], []⟩,
-  /- get_device_sdr_list -/ ⟨47, true, [173], 0, false, false, [], []⟩,
+  /- get_device_sdr -/ ⟨46, true, [160, 170], 1, false, false, [], []⟩,
+  /- get_device_sdr_list -/ ⟨47, true, [170], 0, false, false, [], []⟩,
   /- get_event_receiver -/ ⟨48, true, [], 0, false, false, [], []⟩,
-  /- get_fan_level -/ ⟨49, true, [161], 1, false, false, [], []⟩,
-  /- get_fan_speed_properties -/ ⟨50, true, [161], 1, false, false, [], []⟩,
-  /- get_fru_board_area -/ ⟨51, true, [161], 0, false, false, [], []⟩,
-  /- get_fru_chassis_area -/ ⟨52, true, [161], 0, false, false, [], []⟩,
-  /- get_fru_inventory -/ ⟨53, true, [161], 0, false, false, [], []⟩,
-  /- get_fru_inventory_area_info -/ ⟨54, true, [161], 0, false, false, [], []⟩,
-  /- get_fru_inventory_header -/ ⟨55, true, [161], 0, false, false, [], []⟩,
-  /- get_fru_multirecord_area -/ ⟨56, true, [161], 0, false, false, [], []⟩,
-  /- get_fru_product_area -/ ⟨57, true, [161], 0, false, false, [], []⟩,
+  /- get_fan_level -/ ⟨49, true, [158], 1, false, false, [], []⟩,
+  /- get_fan_speed_properties -/ ⟨50, true, [158], 1, false, false, [], []⟩,
+  /- get_fru_board_area -/ ⟨51, true, [158], 0, false, false, [], []⟩,
+  /- get_fru_chassis_area -/ ⟨52, true, [158], 0, false, false, [], []⟩,
+  /- get_fru_inventory -/ ⟨53, true, [158], 0, false, false, [], []⟩,
+  /- get_fru_inventory_area_info -/ ⟨54, true, [158], 0, false, false, [], []⟩,
+  /- get_fru_inventory_header -/ ⟨55, true, [158], 0, false, false, [], []⟩,
+  /- get_fru_multirecord_area -/ ⟨56, true, [158], 0, false, false, [], []⟩,
+  /- get_fru_product_area -/ ⟨57, true, [158], 0, false, false, [], []⟩,
   /- get_initialization_agent_status -/ ⟨58, true, [], 0, false, false, [], []⟩,
-  /- get_ip_address -/ ⟨59, true, [168], 0, false, false, [], []⟩,
-  /- get_ip_source -/ ⟨60, true, [168], 0, false, false, [], []⟩,
-  /- get_lan_config_param -/ ⟨61, true, [168, 174, 175, 176, 177], 0, false, false, [], []⟩,
-  /- get_led_state -/ ⟨62, true, [161, 178], 2, false, false, [], []⟩,
-  /- get_mac_address -/ ⟨63, true, [168], 0, false, false, [], []⟩,
+  /- get_ip_address -/ ⟨59, true, [165], 0, false, false, [], []⟩,
+  /- get_ip_source -/ ⟨60, true, [165], 0, false, false, [], []⟩,
+  /- get_lan_config_param -/ ⟨61, true, [165, 171, 172, 173, 174], 0, false, false, [], []⟩,
+  /- get_led_state -/ ⟨62, true, [158, 175], 2, false, false, [], []⟩,
+  /- get_mac_address -/ ⟨63, true, [165], 0, false, false, [], []⟩,
   /- get_picmg_properties -/ ⟨64, true, [], 0, false, false, [], []⟩,
   /- get_pm_global_status -/ ⟨65, true, [], 0, false, false, [], []⟩,
-  /- get_port_state -/ ⟨66, true, [179, 180], 2, false, false, [], []⟩,
-  /- get_power_channel_status -/ ⟨67, true, [181], 1, false, false, [], []⟩,
-  /- get_power_level -/ ⟨68, true, [161, 182], 2, false, false, [], []⟩,
-  /- get_power_reading -/ ⟨69, true, [183, 184], 1, false, false, [], []⟩,
-  /- get_repository_sdr -/ ⟨70, true, [163, 173], 1, false, false, [], []⟩,
-  /- get_repository_sdr_list -/ ⟨71, true, [173], 0, false, false, [], []⟩,
+  /- get_port_state -/ ⟨66, true, [176, 177], 2, false, false, [], []⟩,
+  /- get_power_channel_status -/ ⟨67, true, [178], 1, false, false, [], []⟩,
+  /- get_power_level -/ ⟨68, true, [158, 179], 2, false, false, [], []⟩,
+  /- get_power_reading -/ ⟨69, true, [180, 181], 1, false, false, [], []⟩,
+  /- get_repository_sdr -/ ⟨70, true, [160, 170], 1, false, false, [], []⟩,
+  /- get_repository_sdr_list -/ ⟨71, true, [170], 0, false, false, [], []⟩,
   /- get_sdr_repository_allocation_info -/ ⟨72, true, [], 0, false, false, [], []⟩,
   /- get_sdr_repository_info -/ ⟨73, true, [], 0, false, false, [], []⟩,
   /- get_sel_entries -/ ⟨74, true, [], 0, false, false, [], []⟩,
   /- get_sel_entries_count -/ ⟨75, true, [], 0, false, false, [], []⟩,
-  /- get_sel_entry -/ ⟨76, true, [163, 164], 1, false, false, [], []⟩,
+  /- get_sel_entry -/ ⟨76, true, [160, 161], 1, false, false, [], []⟩,
   /- get_sel_reservation_id -/ ⟨77, true, [], 0, false, false, [], []⟩,
-  /- get_sensor_reading -/ ⟨78, true, [185, 186], 1, false, false, [], []⟩,
-  /- get_sensor_thresholds -/ ⟨79, true, [185, 186], 1, false, false, [], []⟩,
-  /- get_signaling_class -/ ⟨80, true, [98, 168], 2, false, false, [], []⟩,
-  /- get_system_boot_options -/ ⟨81, true, [174, 175, 176], 0, false, false, [], []⟩,
+  /- get_sensor_reading -/ ⟨78, true, [182, 183], 1, false, false, [], []⟩,
+  /- get_sensor_thresholds -/ ⟨79, true, [182, 183], 1, false, false, [], []⟩,
+  /- get_signaling_class -/ ⟨80, true, [98, 165], 2, false, false, [], []⟩,
+  /- get_system_boot_options -/ ⟨81, true, [171, 172, 173], 0, false, false, [], []⟩,
   /- get_target_upgrade_capabilities -/ ⟨82, true, [], 0, false, false, [], []⟩,
   /- get_upgrade_status -/ ⟨83, true, [], 0, false, false, [], []⟩,
-  /- get_upgrade_version_from_file -/ ⟨84, true, [187], 1, false, false, [], []⟩,
-  /- get_user_access -/ ⟨85, true, [165, 168], 0, false, false, [], []⟩,
-  /- get_username -/ ⟨86, true, [165], 0, false, false, [], []⟩,
-  /- get_vlan_id -/ ⟨87, true, [168], 0, false, false, [], []⟩,
+  /- get_upgrade_version_from_file -/ ⟨84, true, [184], 1, false, false, [], []⟩,
+  /- get_user_access -/ ⟨85, true, [162, 165], 0, false, false, [], []⟩,
+  /- get_username -/ ⟨86, true, [162], 0, false, false, [], []⟩,
+  /- get_vlan_id -/ ⟨87, true, [165], 0, false, false, [], []⟩,
   /- get_watchdog_timer -/ ⟨88, true, [], 0, false, false, [], []⟩,
-  /- i2c_read -/ ⟨89, true, [188, 189, 168, 190, 191], 5, false, false, [], []⟩,
-  /- i2c_write -/ ⟨90, true, [188, 189, 168, 190, 192], 5, false, false, [], []⟩,
-  /- i2c_write_read -/ ⟨91, true, [188, 189, 168, 190, 191, 192], 5, false, false, [], []⟩,
+  /- i2c_read -/ ⟨89, true, [185, 186, 165, 187, 188], 5, false, false, [], []⟩,
+  /- i2c_write -/ ⟨90, true, [185, 186, 165, 187, 189], 5, false, false, [], []⟩,
+  /- i2c_write_read -/ ⟨91, true, [185, 186, 165, 187, 188, 189], 5, false, false, [], []⟩,
   /- initiate_manual_rollback -/ ⟨92, true, [], 0, false, false, [], []⟩,
-  /- initiate_manual_rollback_and_wait -/ ⟨93, true, [156, 157], 0, false, false, [], []⟩,
-  /- initiate_upgrade_action -/ ⟨94, true, [193, 194], 2, false, false, [], []⟩,
-  /- initiate_upgrade_action_and_wait -/ ⟨95, true, [193, 194, 156, 157], 2, false, false, [], []⟩,
-  /- install_component_from_file -/ ⟨96, true, [187, 159], 2, false, false, [], []⟩,
-  /- install_component_from_image -/ ⟨97, true, [158, 159], 2, false, false, [], []⟩,
+  /- initiate_manual_rollback_and_wait -/ ⟨93, true, [153, 154], 0, false, false, [], []⟩,
+  /- initiate_upgrade_action -/ ⟨94, true, [190, 191], 2, false, false, [], []⟩,
+  /- initiate_upgrade_action_and_wait -/ ⟨95, true, [190, 191, 153, 154], 2, false, false, [], []⟩,
+  /- install_component_from_file -/ ⟨96, true, [184, 156], 2, false, false, [], []⟩,
+  /- install_component_from_image -/ ⟨97, true, [155, 156], 2, false, false, [], []⟩,
   /- interface -/ ⟨98, false, [], 0, false, false, [], []⟩,
   /- is_ipmc_accessible -/ ⟨99, true, [], 0, false, false, [], []⟩,
   /- open -/ ⟨100, true, [], 0, false, false, [], []⟩,
-  /- open_upgrade_image -/ ⟨101, true, [187], 1, false, false, [], []⟩,
-  /- partial_add_sdr -/ ⟨102, true, [173, 163, 195, 196, 192], 5, false, false, [], []⟩,
-  /- preparation_stage -/ ⟨103, true, [158], 1, false, false, [], []⟩,
+  /- open_upgrade_image -/ ⟨101, true, [184], 1, false, false, [], []⟩,
+  /- partial_add_sdr -/ ⟨102, true, [170, 160, 192, 193, 189], 5, false, false, [], []⟩,
+  /- preparation_stage -/ ⟨103, true, [155], 1, false, false, [], []⟩,
   /- query_rollback_status -/ ⟨104, true, [], 0, false, false, [], []⟩,
   /- query_selftest_results -/ ⟨105, true, [], 0, false, false, [], []⟩,
-  /- raw_command -/ ⟨106, true, [186, 197, 198], 3, false, false, [], []⟩,
-  /- read_fru_data -/ ⟨107, true, [195, 191, 161], 0, false, false, [], []⟩,
-  /- read_fru_data_full -/ ⟨108, true, [161], 0, false, false, [], []⟩,
-  /- rearm_sensor_events -/ ⟨109, true, [185], 1, false, false, [], []⟩,
+  /- raw_command -/ ⟨106, true, [183, 194, 195], 3, false, false, [], []⟩,
+  /- read_fru_data -/ ⟨107, true, [192, 188, 158], 0, false, false, [], []⟩,
+  /- read_fru_data_full -/ ⟨108, true, [158], 0, false, false, [], []⟩,
+  /- rearm_sensor_events -/ ⟨109, true, [182], 1, false, false, [], []⟩,
   /- reserve_device_sdr_repository -/ ⟨110, true, [], 0, false, false, [], []⟩,
   /- reserve_sdr_repository -/ ⟨111, true, [], 0, false, false, [], []⟩,
   /- reset_watchdog_timer -/ ⟨112, true, [], 0, false, false, [], []⟩,
   /- sdr_repository_entries -/ ⟨113, true, [], 0, false, false, [], []⟩,
   /- sel_entries -/ ⟨114, true, [], 0, false, false, [], []⟩,
-  /- send_channel_power -/ ⟨115, true, [168, 199, 200, 201, 202], 3, false, false, [], []⟩,
-  /- send_message -/ ⟨116, true, [203, 162], 1, false, false, [], []⟩,
-  /- send_message_with_name -/ ⟨117, true, [204], 1, true, true, [], []⟩,
-  /- send_platform_event -/ ⟨118, true, [205, 185, 206, 207, 208], 3, false, false, [], []⟩,
+  /- send_channel_power -/ ⟨115, true, [165, 196, 197, 198, 199], 3, false, false, [], []⟩,
+  /- send_message -/ ⟨116, true, [200, 159], 1, false, false, [], []⟩,
+  /- send_message_with_name -/ ⟨117, true, [201], 1, true, true, [], []⟩,
+  /- send_platform_event -/ ⟨118, true, [202, 182, 203, 204, 205], 3, false, false, [], []⟩,
   /- send_pm_heartbeat -/ ⟨119, true, [], 0, false, false, [], []⟩,
   /- session -/ ⟨120, false, [], 0, false, false, [], []⟩,
-  /- set_boot_options -/ ⟨121, true, [209, 210, 211], 3, false, false, [], []⟩,
-  /- set_event_receiver -/ ⟨122, true, [212, 186], 2, false, false, [], []⟩,
-  /- set_fan_level -/ ⟨123, true, [161, 213], 2, false, false, [], []⟩,
-  /- set_fru_activation -/ ⟨124, true, [161], 1, false, false, [], []⟩,
-  /- set_fru_activation_lock -/ ⟨125, true, [161], 1, false, false, [], []⟩,
-  /- set_fru_activation_policy -/ ⟨126, true, [161, 214], 2, false, false, [], []⟩,
-  /- set_fru_deactivation -/ ⟨127, true, [161], 1, false, false, [], []⟩,
-  /- set_fru_deactivation_lock -/ ⟨128, true, [161], 1, false, false, [], []⟩,
-  /- set_ip_address -/ ⟨129, true, [215, 168], 1, false, false, [], []⟩,
-  /- set_ip_source -/ ⟨130, true, [216, 168], 1, false, false, [], []⟩,
-  /- set_lan_config_param -/ ⟨131, true, [168, 174, 192], 3, false, false, [], []⟩,
-  /- set_led_state -/ ⟨132, true, [217], 1, false, false, [], []⟩,
-  /- set_port_state -/ ⟨133, true, [218, 219], 2, false, false, [], []⟩,
-  /- set_sensor_thresholds -/ ⟨134, true, [185, 186, 220, 221, 222, 223, 224, 225], 1, false, false, [], []⟩,
-  /- set_signaling_class -/ ⟨135, true, [98, 168, 226], 3, false, false, [], []⟩,
-  /- set_system_boot_options -/ ⟨136, true, [174, 192, 227], 2, false, false, [], []⟩,
-  /- set_user_access -/ ⟨137, true, [165, 228, 229, 230, 231, 168, 232, 233], 5, false, false, [], []⟩,
-  /- set_user_password -/ ⟨138, true, [165, 234], 1, false, false, [], []⟩,
-  /- set_username -/ ⟨139, true, [165, 235], 0, false, false, [], []⟩,
-  /- set_vlan_id -/ ⟨140, true, [236, 168], 1, false, false, [], []⟩,
-  /- set_watchdog_timer -/ ⟨141, true, [237], 1, false, false, [], []⟩,
+  /- set_boot_options -/ ⟨121, true, [206, 207, 208], 3, false, false, [], []⟩,
+  /- set_event_receiver -/ ⟨122, true, [209, 183], 2, false, false, [], []⟩,
+  /- set_fan_level -/ ⟨123, true, [158, 210], 2, false, false, [], []⟩,
+  /- set_fru_activation -/ ⟨124, true, [158], 1, false, false, [], []⟩,
+  /- set_fru_activation_lock -/ ⟨125, true, [158], 1, false, false, [], []⟩,
+  /- set_fru_activation_policy -/ ⟨126, true, [158, 211], 2, false, false, [], []⟩,
+  /- set_fru_deactivation -/ ⟨127, true, [158], 1, false, false, [], []⟩,
+  /- set_fru_deactivation_lock -/ ⟨128, true, [158], 1, false, false, [], []⟩,
+  /- set_ip_address -/ ⟨129, true, [212, 165], 1, false, false, [], []⟩,
+  /- set_ip_source -/ ⟨130, true, [213, 165], 1, false, false, [], []⟩,
+  /- set_lan_config_param -/ ⟨131, true, [165, 171, 189], 3, false, false, [], []⟩,
+  /- set_led_state -/ ⟨132, true, [214], 1, false, false, [], []⟩,
+  /- set_port_state -/ ⟨133, true, [215, 216], 2, false, false, [], []⟩,
+  /- set_sensor_thresholds -/ ⟨134, true, [182, 183, 217, 218, 219, 220, 221, 222], 1, false, false, [], []⟩,
+  /- set_signaling_class -/ ⟨135, true, [98, 165, 223], 3, false, false, [], []⟩,
+  /- set_system_boot_options -/ ⟨136, true, [171, 189, 224], 2, false, false, [], []⟩,
+  /- set_user_access -/ ⟨137, true, [162, 225, 226, 227, 228, 165, 229, 230], 5, false, false, [], []⟩,
+  /- set_user_password -/ ⟨138, true, [162, 231], 1, false, false, [], []⟩,
+  /- set_username -/ ⟨139, true, [162, 232], 0, false, false, [], []⟩,
+  /- set_vlan_id -/ ⟨140, true, [233, 165], 1, false, false, [], []⟩,
+  /- set_watchdog_timer -/ ⟨141, true, [234], 1, false, false, [], []⟩,
   /- start_initialization_agent -/ ⟨142, true, [], 0, false, false, [], []⟩,
   /- target -/ ⟨143, false, [], 0, false, false, [], []⟩,
-  /- upgrade_stage -/ ⟨144, true, [158, 159], 2, false, false, [], []⟩,
-  /- upload_binary -/ ⟨145, true, [238, 156, 157, 162], 1, false, false, [], []⟩,
-  /- upload_firmware_block -/ ⟨146, true, [239, 192], 2, false, false, [], []⟩,
-  /- wait_for_long_duration_command -/ ⟨147, true, [240, 156, 157], 3, false, false, [], []⟩,
-  /- wait_until_ipmb_is_accessible -/ ⟨148, true, [156, 157], 1, false, false, [], []⟩,
-  /- wait_until_new_firmware_comes_up -/ ⟨149, true, [156, 157], 2, false, false, [], []⟩,
+  /- upgrade_stage -/ ⟨144, true, [155, 156], 2, false, false, [], []⟩,
+  /- upload_binary -/ ⟨145, true, [235, 153, 154, 159], 1, false, false, [], []⟩,
+  /- upload_firmware_block -/ ⟨146, true, [236, 189], 2, false, false, [], []⟩,
+  /- wait_for_long_duration_command -/ ⟨147, true, [237, 153, 154], 3, false, false, [], []⟩,
+  /- wait_until_ipmb_is_accessible -/ ⟨148, true, [153, 154], 1, false, false, [], []⟩,
+  /- wait_until_new_firmware_comes_up -/ ⟨149, true, [153, 154], 2, false, false, [], []⟩,
   /- warm_reset -/ ⟨150, true, [], 0, false, false, [], []⟩,
-  /- write_fru_data -/ ⟨151, true, [192, 195, 161], 1, false, false, [], []⟩]
+  /- write_fru_data -/ ⟨151, true, [189, 192, 158], 1, false, false, [], []⟩]
 
 /-- `COMMANDS` -/
 def commands : List Command := [
-  /- bmc info -/ ⟨[98, 109, 99, 32, 105, 110, 102, 111], [[98, 109, 99], [105, 110, 102, 111]], 241, [⟨/- get_device_id -/ 45, true, 0, []⟩]⟩,
-  /- bmc reset cold -/ ⟨[98, 109, 99, 32, 114, 101, 115, 101, 116, 32, 99, 111, 108, 100], [[98, 109, 99], [114, 101, 115, 101, 116], [99, 111, 108, 100]], 242, [⟨/- cold_reset -/ 20, true, 0, []⟩]⟩,
-  /- bmc reset warm -/ ⟨[98, 109, 99, 32, 114, 101, 115, 101, 116, 32, 119, 97, 114, 109], [[98, 109, 99], [114, 101, 115, 101, 116], [119, 97, 114, 109]], 242, [⟨/- warm_reset -/ 150, true, 0, []⟩]⟩,
-  /- sel list -/ ⟨[115, 101, 108, 32, 108, 105, 115, 116], [[115, 101, 108], [108, 105, 115, 116]], 242, [⟨/- sel_entries -/ 114, true, 0, []⟩]⟩,
-  /- sel clear -/ ⟨[115, 101, 108, 32, 99, 108, 101, 97, 114], [[115, 101, 108], [99, 108, 101, 97, 114]], 243, [⟨/- clear_sel -/ 18, true, 0, []⟩]⟩,
-  /- sensor rearm -/ ⟨[115, 101, 110, 115, 111, 114, 32, 114, 101, 97, 114, 109], [[115, 101, 110, 115, 111, 114], [114, 101, 97, 114, 109]], 244, [⟨/- rearm_sensor_events -/ 109, true, 1, []⟩]⟩,
-  /- sdr list -/ ⟨[115, 100, 114, 32, 108, 105, 115, 116], [[115, 100, 114], [108, 105, 115, 116]], 245, [⟨/- get_device_id -/ 45, true, 0, []⟩, ⟨/- sdr_repository_entries -/ 113, false, 0, []⟩, ⟨/- device_sdr_entries -/ 23, false, 0, []⟩, ⟨/- sdr_repository_entries -/ 113, true, 0, []⟩, ⟨/- device_sdr_entries -/ 23, true, 0, []⟩, ⟨/- get_sensor_reading -/ 78, true, 1, []⟩, ⟨/- get_sensor_reading -/ 78, true, 1, []⟩]⟩,
-  /- sdr raw -/ ⟨[115, 100, 114, 32, 114, 97, 119], [[115, 100, 114], [114, 97, 119]], 246, [⟨/- get_device_sdr -/ 46, true, 1, []⟩]⟩,
-  /- sdr show -/ ⟨[115, 100, 114, 32, 115, 104, 111, 119], [[115, 100, 114], [115, 104, 111, 119]], 247, [⟨/- get_sensor_reading -/ 78, true, 2, []⟩, ⟨/- get_sensor_reading -/ 78, true, 1, []⟩, ⟨/- get_device_sdr -/ 46, true, 1, []⟩]⟩,
-  /- sdr showall -/ ⟨[115, 100, 114, 32, 115, 104, 111, 119, 97, 108, 108], [[115, 100, 114], [115, 104, 111, 119, 97, 108, 108]], 248, [⟨/- get_sensor_reading -/ 78, true, 2, []⟩, ⟨/- get_sensor_reading -/ 78, true, 1, []⟩, ⟨/- device_sdr_entries -/ 23, true, 0, []⟩]⟩,
-  /- fru print -/ ⟨[102, 114, 117, 32, 112, 114, 105, 110, 116], [[102, 114, 117], [112, 114, 105, 110, 116]], 249, [⟨/- get_fru_inventory -/ 53, true, 1, []⟩]⟩,
-  /- picmg frucontrol cr -/ ⟨[112, 105, 99, 109, 103, 32, 102, 114, 117, 99, 111, 110, 116, 114, 111, 108, 32, 99, 114], [[112, 105, 99, 109, 103], [102, 114, 117, 99, 111, 110, 116, 114, 111, 108], [99, 114]], 250, [⟨/- fru_control_cold_reset -/ 30, true, 1, []⟩]⟩,
-  /- picmg power get -/ ⟨[112, 105, 99, 109, 103, 32, 112, 111, 119, 101, 114, 32, 103, 101, 116], [[112, 105, 99, 109, 103], [112, 111, 119, 101, 114], [103, 101, 116]], 251, [⟨/- get_power_level -/ 68, true, 2, []⟩]⟩,
-  /- picmg portstate get -/ ⟨[112, 105, 99, 109, 103, 32, 112, 111, 114, 116, 115, 116, 97, 116, 101, 32, 103, 101, 116], [[112, 105, 99, 109, 103], [112, 111, 114, 116, 115, 116, 97, 116, 101], [103, 101, 116]], 252, [⟨/- get_port_state -/ 66, true, 2, []⟩]⟩,
-  /- picmg portstate getall -/ ⟨[112, 105, 99, 109, 103, 32, 112, 111, 114, 116, 115, 116, 97, 116, 101, 32, 103, 101, 116, 97, 108, 108], [[112, 105, 99, 109, 103], [112, 111, 114, 116, 115, 116, 97, 116, 101], [103, 101, 116, 97, 108, 108]], 253, [⟨/- get_port_state -/ 66, true, 2, []⟩]⟩,
-  /- picmg channel status -/ ⟨[112, 105, 99, 109, 103, 32, 99, 104, 97, 110, 110, 101, 108, 32, 115, 116, 97, 116, 117, 115], [[112, 105, 99, 109, 103], [99, 104, 97, 110, 110, 101, 108], [115, 116, 97, 116, 117, 115]], 254, [⟨/- get_power_channel_status -/ 67, true, 1, []⟩]⟩,
-  /- picmg send heartbeat -/ ⟨[112, 105, 99, 109, 103, 32, 115, 101, 110, 100, 32, 104, 101, 97, 114, 116, 98, 101, 97, 116], [[112, 105, 99, 109, 103], [115, 101, 110, 100], [104, 101, 97, 114, 116, 98, 101, 97, 116]], 255, [⟨/- send_pm_heartbeat -/ 119, true, 0, []⟩]⟩,
-  /- picmg channel power -/ ⟨[112, 105, 99, 109, 103, 32, 99, 104, 97, 110, 110, 101, 108, 32, 112, 111, 119, 101, 114], [[112, 105, 99, 109, 103], [99, 104, 97, 110, 110, 101, 108], [112, 111, 119, 101, 114]], 256, [⟨/- send_channel_power -/ 115, true, 1, []⟩]⟩,
-  /- raw -/ ⟨[114, 97, 119], [[114, 97, 119]], 257, [⟨/- raw_command -/ 106, true, 3, []⟩]⟩,
-  /- hpm capabilities -/ ⟨[104, 112, 109, 32, 99, 97, 112, 97, 98, 105, 108, 105, 116, 105, 101, 115], [[104, 112, 109], [99, 97, 112, 97, 98, 105, 108, 105, 116, 105, 101, 115]], 258, [⟨/- get_target_upgrade_capabilities -/ 82, true, 0, []⟩, ⟨/- get_component_properties -/ 40, true, 1, []⟩]⟩,
-  /- hpm check -/ ⟨[104, 112, 109, 32, 99, 104, 101, 99, 107], [[104, 112, 109], [99, 104, 101, 99, 107]], 259, [⟨/- open_upgrade_image -/ 101, true, 1, []⟩]⟩,
-  /- hpm install -/ ⟨[104, 112, 109, 32, 105, 110, 115, 116, 97, 108, 108], [[104, 112, 109], [105, 110, 115, 116, 97, 108, 108]], 260, [⟨/- install_component_from_file -/ 96, true, 2, []⟩]⟩,
-  /- chassis status -/ ⟨[99, 104, 97, 115, 115, 105, 115, 32, 115, 116, 97, 116, 117, 115], [[99, 104, 97, 115, 115, 105, 115], [115, 116, 97, 116, 117, 115]], 261, [⟨/- get_chassis_status -/ 39, true, 0, []⟩]⟩,
-  /- chassis power off -/ ⟨[99, 104, 97, 115, 115, 105, 115, 32, 112, 111, 119, 101, 114, 32, 111, 102, 102], [[99, 104, 97, 115, 115, 105, 115], [112, 111, 119, 101, 114], [111, 102, 102]], 242, [⟨/- chassis_control_power_down -/ 12, true, 0, []⟩]⟩,
-  /- chassis power on -/ ⟨[99, 104, 97, 115, 115, 105, 115, 32, 112, 111, 119, 101, 114, 32, 111, 110], [[99, 104, 97, 115, 115, 105, 115], [112, 111, 119, 101, 114], [111, 110]], 242, [⟨/- chassis_control_power_up -/ 13, true, 0, []⟩]⟩,
-  /- chassis power cycle -/ ⟨[99, 104, 97, 115, 115, 105, 115, 32, 112, 111, 119, 101, 114, 32, 99, 121, 99, 108, 101], [[99, 104, 97, 115, 115, 105, 115], [112, 111, 119, 101, 114], [99, 121, 99, 108, 101]], 242, [⟨/- chassis_control_power_cycle -/ 11, true, 0, []⟩]⟩,
-  /- chassis power reset -/ ⟨[99, 104, 97, 115, 115, 105, 115, 32, 112, 111, 119, 101, 114, 32, 114, 101, 115, 101, 116], [[99, 104, 97, 115, 115, 105, 115], [112, 111, 119, 101, 114], [114, 101, 115, 101, 116]], 242, [⟨/- chassis_control_hard_reset -/ 10, true, 0, []⟩]⟩,
-  /- chassis power diag -/ ⟨[99, 104, 97, 115, 115, 105, 115, 32, 112, 111, 119, 101, 114, 32, 100, 105, 97, 103], [[99, 104, 97, 115, 115, 105, 115], [112, 111, 119, 101, 114], [100, 105, 97, 103]], 242, [⟨/- chassis_control_power_diagnostic_interrupt -/ 262, true, 0, []⟩]⟩,
-  /- chassis power soft -/ ⟨[99, 104, 97, 115, 115, 105, 115, 32, 112, 111, 119, 101, 114, 32, 115, 111, 102, 116], [[99, 104, 97, 115, 115, 105, 115], [112, 111, 119, 101, 114], [115, 111, 102, 116]], 242, [⟨/- chassis_control_power_soft_shutdown -/ 263, true, 0, []⟩]⟩]
+  /- bmc info -/ ⟨[98, 109, 99, 32, 105, 110, 102, 111], [[98, 109, 99], [105, 110, 102, 111]], 238, [⟨/- get_device_id -/ 45, true, 0, []⟩]⟩,
+  /- bmc reset cold -/ ⟨[98, 109, 99, 32, 114, 101, 115, 101, 116, 32, 99, 111, 108, 100], [[98, 109, 99], [114, 101, 115, 101, 116], [99, 111, 108, 100]], 239, [⟨/- cold_reset -/ 20, true, 0, []⟩]⟩,
+  /- bmc reset warm -/ ⟨[98, 109, 99, 32, 114, 101, 115, 101, 116, 32, 119, 97, 114, 109], [[98, 109, 99], [114, 101, 115, 101, 116], [119, 97, 114, 109]], 239, [⟨/- warm_reset -/ 150, true, 0, []⟩]⟩,
+  /- sel list -/ ⟨[115, 101, 108, 32, 108, 105, 115, 116], [[115, 101, 108], [108, 105, 115, 116]], 239, [⟨/- sel_entries -/ 114, true, 0, []⟩]⟩,
+  /- sel clear -/ ⟨[115, 101, 108, 32, 99, 108, 101, 97, 114], [[115, 101, 108], [99, 108, 101, 97, 114]], 240, [⟨/- clear_sel -/ 18, true, 0, []⟩]⟩,
+  /- sensor rearm -/ ⟨[115, 101, 110, 115, 111, 114, 32, 114, 101, 97, 114, 109], [[115, 101, 110, 115, 111, 114], [114, 101, 97, 114, 109]], 241, [⟨/- rearm_sensor_events -/ 109, true, 1, []⟩]⟩,
+  /- sdr list -/ ⟨[115, 100, 114, 32, 108, 105, 115, 116], [[115, 100, 114], [108, 105, 115, 116]], 242, [⟨/- get_device_id -/ 45, true, 0, []⟩, ⟨/- sdr_repository_entries -/ 113, false, 0, []⟩, ⟨/- device_sdr_entries -/ 23, false, 0, []⟩, ⟨/- sdr_repository_entries -/ 113, true, 0, []⟩, ⟨/- device_sdr_entries -/ 23, true, 0, []⟩, ⟨/- get_sensor_reading -/ 78, true, 1, []⟩, ⟨/- get_sensor_reading -/ 78, true, 1, []⟩]⟩,
+  /- sdr raw -/ ⟨[115, 100, 114, 32, 114, 97, 119], [[115, 100, 114], [114, 97, 119]], 243, [⟨/- get_device_sdr -/ 46, true, 1, []⟩]⟩,
+  /- sdr show -/ ⟨[115, 100, 114, 32, 115, 104, 111, 119], [[115, 100, 114], [115, 104, 111, 119]], 244, [⟨/- get_sensor_reading -/ 78, true, 2, []⟩, ⟨/- get_sensor_reading -/ 78, true, 1, []⟩, ⟨/- get_device_sdr -/ 46, true, 1, []⟩]⟩,
+  /- sdr showall -/ ⟨[115, 100, 114, 32, 115, 104, 111, 119, 97, 108, 108], [[115, 100, 114], [115, 104, 111, 119, 97, 108, 108]], 245, [⟨/- get_sensor_reading -/ 78, true, 2, []⟩, ⟨/- get_sensor_reading -/ 78, true, 1, []⟩, ⟨/- device_sdr_entries -/ 23, true, 0, []⟩]⟩,
+  /- fru print -/ ⟨[102, 114, 117, 32, 112, 114, 105, 110, 116], [[102, 114, 117], [112, 114, 105, 110, 116]], 246, [⟨/- get_fru_inventory -/ 53, true, 1, []⟩]⟩,
+  /- picmg frucontrol cr -/ ⟨[112, 105, 99, 109, 103, 32, 102, 114, 117, 99, 111, 110, 116, 114, 111, 108, 32, 99, 114], [[112, 105, 99, 109, 103], [102, 114, 117, 99, 111, 110, 116, 114, 111, 108], [99, 114]], 247, [⟨/- fru_control_cold_reset -/ 30, true, 1, []⟩]⟩,
+  /- picmg power get -/ ⟨[112, 105, 99, 109, 103, 32, 112, 111, 119, 101, 114, 32, 103, 101, 116], [[112, 105, 99, 109, 103], [112, 111, 119, 101, 114], [103, 101, 116]], 248, [⟨/- get_power_level -/ 68, true, 2, []⟩]⟩,
+  /- picmg portstate get -/ ⟨[112, 105, 99, 109, 103, 32, 112, 111, 114, 116, 115, 116, 97, 116, 101, 32, 103, 101, 116], [[112, 105, 99, 109, 103], [112, 111, 114, 116, 115, 116, 97, 116, 101], [103, 101, 116]], 249, [⟨/- get_port_state -/ 66, true, 2, []⟩]⟩,
+  /- picmg portstate getall -/ ⟨[112, 105, 99, 109, 103, 32, 112, 111, 114, 116, 115, 116, 97, 116, 101, 32, 103, 101, 116, 97, 108, 108], [[112, 105, 99, 109, 103], [112, 111, 114, 116, 115, 116, 97, 116, 101], [103, 101, 116, 97, 108, 108]], 250, [⟨/- get_port_state -/ 66, true, 2, []⟩]⟩,
+  /- picmg channel status -/ ⟨[112, 105, 99, 109, 103, 32, 99, 104, 97, 110, 110, 101, 108, 32, 115, 116, 97, 116, 117, 115], [[112, 105, 99, 109, 103], [99, 104, 97, 110, 110, 101, 108], [115, 116, 97, 116, 117, 115]], 251, [⟨/- get_power_channel_status -/ 67, true, 1, []⟩]⟩,
+  /- picmg send heartbeat -/ ⟨[112, 105, 99, 109, 103, 32, 115, 101, 110, 100, 32, 104, 101, 97, 114, 116, 98, 101, 97, 116], [[112, 105, 99, 109, 103], [115, 101, 110, 100], [104, 101, 97, 114, 116, 98, 101, 97, 116]], 252, [⟨/- send_pm_heartbeat -/ 119, true, 0, []⟩]⟩,
+  /- picmg channel power -/ ⟨[112, 105, 99, 109, 103, 32, 99, 104, 97, 110, 110, 101, 108, 32, 112, 111, 119, 101, 114], [[112, 105, 99, 109, 103], [99, 104, 97, 110, 110, 101, 108], [112, 111, 119, 101, 114]], 253, [⟨/- send_channel_power -/ 115, true, 1, []⟩]⟩,
+  /- raw -/ ⟨[114, 97, 119], [[114, 97, 119]], 254, [⟨/- raw_command -/ 106, true, 3, []⟩]⟩,
+  /- hpm capabilities -/ ⟨[104, 112, 109, 32, 99, 97, 112, 97, 98, 105, 108, 105, 116, 105, 101, 115], [[104, 112, 109], [99, 97, 112, 97, 98, 105, 108, 105, 116, 105, 101, 115]], 255, [⟨/- get_target_upgrade_capabilities -/ 82, true, 0, []⟩, ⟨/- get_component_properties -/ 40, true, 1, []⟩]⟩,
+  /- hpm check -/ ⟨[104, 112, 109, 32, 99, 104, 101, 99, 107], [[104, 112, 109], [99, 104, 101, 99, 107]], 256, [⟨/- open_upgrade_image -/ 101, true, 1, []⟩]⟩,
+  /- hpm install -/ ⟨[104, 112, 109, 32, 105, 110, 115, 116, 97, 108, 108], [[104, 112, 109], [105, 110, 115, 116, 97, 108, 108]], 257, [⟨/- install_component_from_file -/ 96, true, 2, []⟩]⟩,
+  /- chassis status -/ ⟨[99, 104, 97, 115, 115, 105, 115, 32, 115, 116, 97, 116, 117, 115], [[99, 104, 97, 115, 115, 105, 115], [115, 116, 97, 116, 117, 115]], 258, [⟨/- get_chassis_status -/ 39, true, 0, []⟩]⟩,
+  /- chassis power off -/ ⟨[99, 104, 97, 115, 115, 105, 115, 32, 112, 111, 119, 101, 114, 32, 111, 102, 102], [[99, 104, 97, 115, 115, 105, 115], [112, 111, 119, 101, 114], [111, 102, 102]], 239, [⟨/- chassis_control_power_down -/ 12, true, 0, []⟩]⟩,
+  /- chassis power on -/ ⟨[99, 104, 97, 115, 115, 105, 115, 32, 112, 111, 119, 101, 114, 32, 111, 110], [[99, 104, 97, 115, 115, 105, 115], [112, 111, 119, 101, 114], [111, 110]], 239, [⟨/- chassis_control_power_up -/ 13, true, 0, []⟩]⟩,
+  /- chassis power cycle -/ ⟨[99, 104, 97, 115, 115, 105, 115, 32, 112, 111, 119, 101, 114, 32, 99, 121, 99, 108, 101], [[99, 104, 97, 115, 115, 105, 115], [112, 111, 119, 101, 114], [99, 121, 99, 108, 101]], 239, [⟨/- chassis_control_power_cycle -/ 11, true, 0, []⟩]⟩,
+  /- chassis power reset -/ ⟨[99, 104, 97, 115, 115, 105, 115, 32, 112, 111, 119, 101, 114, 32, 114, 101, 115, 101, 116], [[99, 104, 97, 115, 115, 105, 115], [112, 111, 119, 101, 114], [114, 101, 115, 101, 116]], 239, [⟨/- chassis_control_hard_reset -/ 10, true, 0, []⟩]⟩,
+  /- chassis power diag -/ ⟨[99, 104, 97, 115, 115, 105, 115, 32, 112, 111, 119, 101, 114, 32, 100, 105, 97, 103], [[99, 104, 97, 115, 115, 105, 115], [112, 111, 119, 101, 114], [100, 105, 97, 103]], 239, [⟨/- chassis_control_power_diagnostic_interrupt -/ 259, true, 0, []⟩]⟩,
+  /- chassis power soft -/ ⟨[99, 104, 97, 115, 115, 105, 115, 32, 112, 111, 119, 101, 114, 32, 115, 111, 102, 116], [[99, 104, 97, 115, 115, 105, 115], [112, 111, 119, 101, 114], [115, 111, 102, 116]], 239, [⟨/- chassis_control_power_soft_shutdown -/ 260, true, 0, []⟩]⟩]
 
 /-- `ipmi.<m>()` calls of `main` itself -/
 def mainRefs : List MethodRef := [⟨/- open -/ 100, true, 0, []⟩, ⟨/- close -/ 19, true, 0, []⟩]
@@ -208,7 +208,7 @@ def shape : MainShape := {
   /- -h -/ ⟨104, OptAct.exitOk⟩,
   /- -V -/ ⟨86, OptAct.exitOk⟩,
   /- -t → target_address -/ ⟨116, (OptAct.assign 2 Conv.int0)⟩,
-  /- -b → target_routing -/ ⟨98, (OptAct.assign 3 (Conv.routeChannel 32 0))⟩,
+  /- -b → target_routing -/ ⟨98, (OptAct.assign 3 (Conv.routeChannel 32 0 false))⟩,
   /- -r → target_routing -/ ⟨114, (OptAct.assign 3 Conv.str)⟩,
   /- -H → rmcp_host -/ ⟨72, (OptAct.assign 4 Conv.str)⟩,
   /- -p → rmcp_port -/ ⟨112, (OptAct.assign 5 Conv.int0)⟩,
@@ -231,13 +231,32 @@ def shape : MainShape := {
   vPort := 5
   vUser := 6
   vPassword := 7
-  vPriv := 8 }
+  vPriv := 8
+  closeInside := false }
 
 /-- `except` clauses around `ipmi.open(); cmd(ipmi, args)` -/
 def exits : List ExitClause := [
-  /- CompletionCodeError -/ ⟨ExcKind.completionCode, (some (MsgFmt.hex2cc [67, 111, 109, 109, 97, 110, 100, 32, 114, 101, 116, 117, 114, 110, 101, 100, 32, 119, 105, 116, 104, 32, 99, 111, 109, 112, 108, 101, 116, 105, 111, 110, 32, 99, 111, 100, 101, 32, 48, 120])), 1⟩,
-  /- IpmiTimeoutError -/ ⟨ExcKind.timeout, (some (MsgFmt.lit [67, 111, 109, 109, 97, 110, 100, 32, 116, 105, 109, 101, 100, 32, 111, 117, 116])), 1⟩,
-  /- KeyboardInterrupt -/ ⟨ExcKind.keyboardInterrupt, none, 1⟩]
+  /- CompletionCodeError -/ ⟨[.lib .completionCodeError], (some (MsgFmt.hex2cc [67, 111, 109, 109, 97, 110, 100, 32, 114, 101, 116, 117, 114, 110, 101, 100, 32, 119, 105, 116, 104, 32, 99, 111, 109, 112, 108, 101, 116, 105, 111, 110, 32, 99, 111, 100, 101, 32, 48, 120])), 1⟩,
+  /- IpmiTimeoutError -/ ⟨[.lib .ipmiTimeoutError], (some (MsgFmt.lit [67, 111, 109, 109, 97, 110, 100, 32, 116, 105, 109, 101, 100, 32, 111, 117, 116])), 1⟩,
+  /- KeyboardInterrupt -/ ⟨[.keyboardInterrupt], none, 1⟩]
+
+/-- the exception classes of `pyipmi/errors.py`, in source order -/
+def errorClasses : List String := ["DecodingError", "EncodingError", "IpmiTimeoutError", "CompletionCodeError", "NotSupportedError", "DescriptionError", "RetryError", "DataNotFound", "HpmError", "IpmiConnectionError", "IpmiLongPasswordError"]
+
+/-- every `int(args[k])` (base0 = false) / `int(args[k], 0)` (true) of a handler: entry, k, base0 -/
+def argConvs : List ArgConv := [/- sensor rearm -/ ⟨5, 0, true⟩, /- sdr raw -/ ⟨7, 0, true⟩, /- sdr show -/ ⟨8, 0, true⟩, /- fru print -/ ⟨10, 0, false⟩, /- picmg portstate get -/ ⟨13, 0, false⟩, /- picmg portstate get -/ ⟨13, 1, false⟩, /- picmg channel status -/ ⟨15, 0, false⟩, /- picmg channel power -/ ⟨17, 0, false⟩, /- hpm install -/ ⟨21, 1, false⟩]
+
+/-- the printing handlers -/
+def handlers : HandlerShape := {
+  linkNoneGuard := false
+  idStringGuard := false
+  entityGuard := false
+  convCatch := [("sdr list", ["CompletionCodeError"]), ("sdr show", ["ValueError"]), ("sdr showall", ["ValueError"])] }
+
+/-- `SdrCommon.from_data`: record type ↦ (class sets `device_id_string`, class sets `entity_id`) -/
+def sdrClasses : List (Nat × Bool × Bool) := [/- SdrFullSensorRecord -/ (0x01, true, true), /- SdrCompactSensorRecord -/ (0x02, true, true), /- SdrEventOnlySensorRecord -/ (0x03, true, true), /- SdrFruDeviceLocator -/ (0x11, true, true), /- SdrManagementControllerDeviceLocator -/ (0x12, true, true), /- SdrManagementControllerConfirmationRecord -/ (0x13, false, false), /- SdrOEMSensorRecord -/ (0xc0, false, false)]
+/-- every other record type: SdrUnknownSensorRecord -/
+def sdrDefault : Bool × Bool := (false, false)
 
 /-- `NAME` of every class in `pyipmi.interfaces.INTERFACES` -/
 def interfaces : List Str := [/- ipmitool -/ [105, 112, 109, 105, 116, 111, 111, 108], /- aardvark -/ [97, 97, 114, 100, 118, 97, 114, 107], /- ipmbdev -/ [105, 112, 109, 98, 100, 101, 118], /- mock -/ [109, 111, 99, 107], /- rmcp -/ [114, 109, 99, 112]]
@@ -269,24 +288,24 @@ def names : List String := [
   "set_led_state", "set_port_state", "set_sensor_thresholds", "set_signaling_class", "set_system_boot_options", "set_user_access",
   "set_user_password", "set_username", "set_vlan_id", "set_watchdog_timer", "start_initialization_agent", "target",
   "upgrade_stage", "upload_binary", "upload_firmware_block", "wait_for_long_duration_command", "wait_until_ipmb_is_accessible", "wait_until_new_firmware_comes_up",
-  "warm_reset", "write_fru_data", "CompletionCodeError", "IpmiTimeoutError", "KeyboardInterrupt", "rollback_override",
-  "timeout", "interval", "image", "component", "option", "fru_id",
-  "retry", "record_id", "reservation", "userid", "descriptor", "length",
-  "channel", "priv_lvl", "component_id", "property_id", "selector", "reservation_id",
-  "parameter_selector", "set_selector", "block_selector", "revision_only", "led_id", "channel_number",
-  "channel_interface", "start", "power_type", "mode", "attributes", "sensor_number",
-  "lun", "filename", "bus_type", "bus_id", "address", "count",
-  "data", "components_mask", "action", "offset", "progress", "netfn",
-  "raw_bytes", "enable", "current_limit", "primary_pm", "backup_pm", "req",
-  "name", "sensor_type", "event_type", "asserted", "event_data", "boot_device",
-  "boot_mode", "boot_persistency", "ipmb_address", "fan_level", "ctrl", "ip_address",
-  "ip_source", "led", "link_descr", "state", "unr", "ucr",
-  "unc", "lnc", "lcr", "lnr", "signaling_class", "mark_parameter_invalid",
-  "ipmi_msg", "link_auth", "callback_only", "priv_level", "enable_change", "user_session_limit",
-  "password", "username", "vlan", "config", "binary", "block_number",
-  "expected_cmd", "cmd_bmc_info", "<lambda>", "cmd_sel_clear", "cmd_sensor_rearm", "cmd_sdr_list",
-  "cmd_sdr_show_raw", "cmd_sdr_show", "cmd_sdr_show_all", "cmd_fru_print", "cmd_picmg_frucontrol_cold_reset", "cmd_picmg_get_power",
-  "cmd_picmg_get_portstate", "cmd_picmg_get_portstate_all", "cmd_picmg_getpower_channel_status", "cmd_picmg_send_pm_heartbeat", "cmd_picmg_send_channel_power", "cmd_raw",
-  "cmd_hpm_capabilities", "cmd_hpm_check_file", "cmd_hpm_install", "cmd_chassis_status", "chassis_control_power_diagnostic_interrupt", "chassis_control_power_soft_shutdown"]
+  "warm_reset", "write_fru_data", "rollback_override", "timeout", "interval", "image",
+  "component", "option", "fru_id", "retry", "record_id", "reservation",
+  "userid", "descriptor", "length", "channel", "priv_lvl", "component_id",
+  "property_id", "selector", "reservation_id", "parameter_selector", "set_selector", "block_selector",
+  "revision_only", "led_id", "channel_number", "channel_interface", "start", "power_type",
+  "mode", "attributes", "sensor_number", "lun", "filename", "bus_type",
+  "bus_id", "address", "count", "data", "components_mask", "action",
+  "offset", "progress", "netfn", "raw_bytes", "enable", "current_limit",
+  "primary_pm", "backup_pm", "req", "name", "sensor_type", "event_type",
+  "asserted", "event_data", "boot_device", "boot_mode", "boot_persistency", "ipmb_address",
+  "fan_level", "ctrl", "ip_address", "ip_source", "led", "link_descr",
+  "state", "unr", "ucr", "unc", "lnc", "lcr",
+  "lnr", "signaling_class", "mark_parameter_invalid", "ipmi_msg", "link_auth", "callback_only",
+  "priv_level", "enable_change", "user_session_limit", "password", "username", "vlan",
+  "config", "binary", "block_number", "expected_cmd", "cmd_bmc_info", "<lambda>",
+  "cmd_sel_clear", "cmd_sensor_rearm", "cmd_sdr_list", "cmd_sdr_show_raw", "cmd_sdr_show", "cmd_sdr_show_all",
+  "cmd_fru_print", "cmd_picmg_frucontrol_cold_reset", "cmd_picmg_get_power", "cmd_picmg_get_portstate", "cmd_picmg_get_portstate_all", "cmd_picmg_getpower_channel_status",
+  "cmd_picmg_send_pm_heartbeat", "cmd_picmg_send_channel_power", "cmd_raw", "cmd_hpm_capabilities", "cmd_hpm_check_file", "cmd_hpm_install",
+  "cmd_chassis_status", "chassis_control_power_diagnostic_interrupt", "chassis_control_power_soft_shutdown"]
 
 end PyIpmi.Cli.AsShipped
